@@ -5,7 +5,9 @@ wt="$1"; md="$2"
 export GOFLAGS=-mod=mod GOPROXY=off
 cd "$wt" || exit 2
 git checkout -q -- . && git clean -fdq
-pkgdir=$(grep -oE 'pkg/[a-zA-Z0-9_/]+/' "$md/demo_test.go" | head -1)
+pkgdir="$3"
+[ -z "$pkgdir" ] && pkgdir=$(grep -oE 'go test[^|]* \./((pkg|cli|internal)/[a-zA-Z0-9_/]+)' "$md/demo_test.go" "$md/README.md" 2>/dev/null | head -1 | grep -oE '(pkg|cli|internal)/[a-zA-Z0-9_/]+' | sed 's#/*$#/#')
+[ -z "$pkgdir" ] && pkgdir=$(grep -oE 'pkg/[a-zA-Z0-9_/]+/' "$md/demo_test.go" | head -1)
 [ -z "$pkgdir" ] && pkgdir=$(grep -oE '(pkg|cli|internal)/[a-zA-Z0-9_/]+' "$md/demo_test.go" | head -1)/
 runpat=$(grep -oE "\-run '?[A-Za-z0-9_^$|]+'?" "$md/demo_test.go" | head -1 | sed "s/-run //; s/'//g")
 log="$md/confirm.log"; : > "$log"
